@@ -72,6 +72,16 @@ def literal_round_trips(rep, cov, tier):
         n += 1
         labels = set(rec["labs"]) | {"literal"}
         lit = "".join(rec["text"])
+        if rec["kind"] == "real":
+            from fractions import Fraction
+            v = rec["value"]
+            exact = Fraction(int("".join(str(x) for x in v["mant"]))) * (Fraction(10) ** v["exp10"])
+            try:
+                whole = float(exact).is_integer()          # the binary64 value the literal is read as
+            except OverflowError:
+                whole = False
+            if whole:
+                labels.add("real:whole-number-or-underflow")
         sig = None
         if "panic" in r or "abort" in r:
             sig = "panic:render"
@@ -96,18 +106,25 @@ def main():
     vlib.build()
     rep = vlib.Report("C10")
     cov = {"states": 0, "transitions": 0, "traces_validated_against_impl": 0, "samples": [], "tlc_runs": []}
-    ds = gramcheck.derivations(QUICK if tier == "quick" else THOROUGH, cov)
-    fails, stats = gramcheck.replay(ds, "c10", vlib.SEED, {})
-    failing = set()
-    for d, vn, text, sig, det in fails:
-        failing.add(id(d))
-        rep.add(norm_sig(sig), labels=set(d["labs"]), detail=dict(det, source=text, full_signature=sig, labels=d["labs"]),
-                replay={"text": text, "cmd": "vph parse with render=true"})
+    nds = 0
+    stats = {"cases": 0, "ok": 0}
+    good = []
+    for ds in gramcheck.batches(QUICK if tier == "quick" else THOROUGH, tier, cov):
+        fails, st = gramcheck.replay(ds, "c10", vlib.SEED, {})
+        stats["cases"] += st["cases"]
+        stats["ok"] += st["ok"]
+        nds += len(ds)
+        failing = set()
+        for d, vn, text, sig, det in fails:
+            failing.add(id(d))
+            rep.add(norm_sig(sig), labels=set(d["labs"]), detail=dict(det, source=text, full_signature=sig, labels=d["labs"]),
+                    replay={"text": text, "cmd": "vph parse with render=true"})
+        ok_texts = [gram.spell(d["toks"])[0] for d in ds if id(d) not in failing]
+        good += ok_texts[:: max(1, len(ok_texts) // 200)]
     literal_round_trips(rep, cov, tier)
-    good = [gram.spell(d["toks"])[0] for d in ds if id(d) not in failing]
     step = max(1, len(good) // (60 if tier == "quick" else 600))
     echo_twice(good[::step], rep, cov)
-    cov["derivations"] = len(ds)
+    cov["derivations"] = nds
     cov["round_trips"] = stats["cases"]
     cov["round_trips_ok"] = stats["ok"]
     cov["traces_validated_against_impl"] = stats["cases"]
